@@ -54,7 +54,7 @@ fn fuzz_dir(root: &Path) -> PathBuf {
 fn build_target(root: &Path, target: &str) -> Result<PathBuf, String> {
     let dir = fuzz_dir(root);
     let out = Command::new("cargo")
-        .args(["+nightly", "fuzz", "build", "-O", &format!("fz_{}", target)])
+        .args(["+nightly", "fuzz", "build", "-O", "-s", "none", &format!("fz_{}", target)])
         .current_dir(dir.parent().unwrap())
         .env("CARGO_NET_OFFLINE", "true")
         .output()
